@@ -58,6 +58,20 @@ def impl(c):
     F, G, _ = opzoo.dense(op, in_shape, dt)
     res['matrix_dev'] = float(np.abs(F @ x.reshape(-1).to(torch.complex128).numpy() - fx.reshape(-1).to(torch.complex128).numpy()).max()) / scale
     res['matrix_adj_dev'] = float(np.abs(G @ u.reshape(-1).to(torch.complex128).numpy() - gu.reshape(-1).to(torch.complex128).numpy()).max()) / scale
+    # the same real-valued input given in a real dtype must give the action of the same matrix (no dtype-dependent branch)
+    if dt.is_complex and c['cls'] not in ('FastFourierOp', 'FourierOp'):
+        rdt = torch.float64 if dt == torch.complex128 else torch.float32
+        xr = torch.randint(-4, 5, list(in_shape), generator=g).to(rdt)
+        try:
+            (fr,) = op(xr)
+            ref = F @ xr.reshape(-1).to(torch.complex128).numpy()
+            res['real_dtype_dev'] = float(np.abs(fr.reshape(-1).to(torch.complex128).numpy() - ref).max()) / float(max(1.0, np.abs(ref).max()))
+            ur = torch.randint(-4, 5, list(fx.shape), generator=g).to(rdt)
+            (gr,) = op.adjoint(ur)
+            refa = G @ ur.reshape(-1).to(torch.complex128).numpy()
+            res['real_dtype_adj_dev'] = float(np.abs(gr.reshape(-1).to(torch.complex128).numpy() - refa).max()) / float(max(1.0, np.abs(refa).max()))
+        except (RuntimeError, TypeError) as e:
+            res['real_dtype_unsupported'] = str(e)[:80]
     if c['cls'] in opzoo.MODELLED:
         xc = x.reshape(-1).to(torch.complex128)
         res['x'] = [[int(v.real), int(v.imag)] for v in xc.tolist()]
@@ -70,8 +84,9 @@ def oracle(c, o):
         return f'{c["cls"]} raised {o["raises"]}: {o.get("msg")}'
     tol = TOL.get(c['cls'], 0.0) or 1e-12
     for k, what in (('fwd_dev', 'A(a x + b y) != a A(x) + b A(y)'), ('adj_dev', 'A^H(a u + b v) != a A^H(u) + b A^H(v)'),
-                    ('matrix_dev', 'A(x) != matrix(A) x'), ('matrix_adj_dev', 'A^H(u) != matrix(A^H) u')):
-        if o[k] > tol:
+                    ('matrix_dev', 'A(x) != matrix(A) x'), ('matrix_adj_dev', 'A^H(u) != matrix(A^H) u'),
+                    ('real_dtype_dev', 'A(x) for a real-dtype x != matrix(A) x'), ('real_dtype_adj_dev', 'A^H(u) for a real-dtype u != matrix(A^H) u')):
+        if k in o and o[k] > tol:
             return f'{c["cls"]}: {what} (relative deviation {o[k]:.3g}, a={c["a"]}, b={c["b"]}, seed {c["seed"]})'
     if o['zero'] != 0.0:
         return f'{c["cls"]}: zero tensor mapped to {o["zero"]}'
